@@ -166,7 +166,11 @@ void h_file_schema_spec(void) {
         __CPROVER_assert(s->leaf_indices[j] == sp.leaf_index[j], "leaves in depth-first order");
         __CPROVER_assert(s->max_def_levels[j] == sp.max_def[j], "max_def == optional/repeated nodes on the path");
         __CPROVER_assert(s->max_rep_levels[j] == sp.max_rep[j], "max_rep == repeated nodes on the path");
+#if CQV_N >= 3
         if (sp.max_def[j] == 2 && sp.max_rep[j] == 1) CQV_CANARY("a leaf at def 2 / rep 1 reached");
+#else
+        if (sp.max_def[j] == 1 && sp.max_rep[j] == 1) CQV_CANARY("a leaf at def 1 / rep 1 reached");
+#endif
       }
     }
   }
